@@ -267,6 +267,9 @@ def space(tier):
             for s3 in three[2::3][:: 1 if T else 2]:
                 for sel in (["chr2", "chr3"], ["chr1", "chr3"], ["chr3"], ["chr1", "chr2"], ["chr2"]):
                     yield ([("chr1", list(s1)), ("chr2", list(s2)), ("chr3", list(s3))], "PS", False, sel, False)
+                # contigs in karyotype order, which is not the order of their names as strings (chr10 < chr2)
+                for sel in (["chr1", "chr10"], ["chr10"], ["chr2", "chr10"]):
+                    yield ([("chr1", list(s1)), ("chr2", list(s2)), ("chr10", list(s3))], "PS", False, sel, False)
     # a set that continues behind two nested sets on one chromosome, a two-variant set at every offset on the other
     # (the ALL row must not let the pieces of one chromosome be cut by a block of another)
     for c1 in (["A0|1", "A0|1", "B0|1", "B0|1", "A0|1", "A0|1", "C0|1", "C0|1", "A0|1", "A0|1"], ["A0|1", "B0|1", "B0|1", "A0|1", "C0|1", "C0|1", "A0|1"], ["A0|1", "A0|1", "B0|1", "A0|1", "B0|1", "C0|1", "A0|1", "C0|1"]):
